@@ -2,7 +2,7 @@
    [dstep] is the specification (apply the acknowledged commands in order to an empty catalogue); the running server
    equals it by C05_replay_equals_runtime; the implementation is compared with it response by response and listing by
    listing on every run. *)
-From IggyV Require Import Base.Tactics Base.ListX Model.Catalog Proofs.CatalogProofs.
+From IggyV Require Import Base.Tactics Base.ListX Model.Catalog Proofs.CatalogProofs Model.Members Proofs.MembersProofs.
 Open Scope N_scope.
 
 (* ids and names are unique within their scope (streams; topics of a stream; groups of a topic; users) after any
@@ -25,8 +25,35 @@ Proof. exact dstep_failed. Qed.
 Theorem C06_runtime_unique : forall hs, wf (fst (fst (hfinal st_init hs))).
 Proof. intros hs. rewrite (hfinal_inv hs st_init st_init_inv). apply replay_wf. Qed.
 
+(* PROVED, consumer-group memberships (Model/Members.v: the ClientManager's per-client list and each group's own member table,
+   kept by separate code paths), every history of group creations, logins, joins, leaves, deletions of groups / topics / streams
+   and disappearing clients: a client lists a group EXACTLY when that group exists and lists the client - no ghost member, no
+   dangling membership *)
+Theorem C06_memberships_coherent : forall ops c g,
+  In g (cget c (ms_clients (mrun ops))) <-> exists ms, gget g (ms_groups (mrun ops)) = Some ms /\ In c ms.
+Proof. exact coherent_always. Qed.
+
+(* deleting a group, a topic or a stream removes exactly the groups and memberships nested in it; every sibling is untouched *)
+Theorem C06_delete_removes_nested : forall f m g c, f g = true ->
+  gget g (ms_groups (drop_groups f m)) = None /\ ~ In g (cget c (ms_clients (drop_groups f m))).
+Proof. exact drop_removes. Qed.
+Theorem C06_delete_keeps_siblings : forall f m g c, f g = false ->
+  gget g (ms_groups (drop_groups f m)) = gget g (ms_groups m) /\
+  (In g (cget c (ms_clients (drop_groups f m))) <-> In g (cget c (ms_clients m))).
+Proof. exact drop_frame. Qed.
+
+Example C06_memberships_nonvacuous :
+  let ops := [MCreateGroup (1, 1, 1); MCreateGroup (1, 2, 1); MCreateGroup (2, 1, 1); MConnect 7; MConnect 8; MJoin 7 (1, 1, 1); MJoin 7 (1, 2, 1);
+              MJoin 8 (1, 1, 1); MJoin 8 (2, 1, 1); MJoin 7 (1, 1, 1); MDeleteTopic 1 2; MLeave 8 (1, 1, 1); MDropClient 7] in
+  map (fun q => manswer (mrun (firstn 10 ops)) q) [QClient 7; QClient 8; QGroup (1, 1, 1)] = [Some 2; Some 2; Some 2] /\
+  map (fun q => manswer (mrun ops) q) [QClient 7; QClient 8; QGroup (1, 1, 1); QGroup (1, 2, 1); QGroup (2, 1, 1)] = [Some 0; Some 1; Some 0; None; Some 1].
+Proof. vm_compute. split; reflexivity. Qed.
+
 Print Assumptions C06_unique.
 Print Assumptions C06_unique_step.
 Print Assumptions C06_lookup_agree.
 Print Assumptions C06_failed_changes_nothing.
 Print Assumptions C06_runtime_unique.
+Print Assumptions C06_memberships_coherent.
+Print Assumptions C06_delete_removes_nested.
+Print Assumptions C06_delete_keeps_siblings.
